@@ -274,7 +274,7 @@ def replay(case):
     return evaluate(case).verdicts
 
 
-PARAMS = {"quick": 350, "thorough": 10000}
+PARAMS = {"quick": 600, "thorough": 10000}
 
 
 def shard(ctx):
